@@ -17,8 +17,12 @@ def build(tier, seed):
     jobs = [([], devs[w]) for w in range(W)]
     for i in range(nprob):
         A = rng.choice([2, 3, 4, 4, 6])
+        # i % 3 == 1: the problem supplies non-zero initial value estimates but no initial policy — the first policy must still maximise the
+        # immediate expected reward (not reward + gamma * initial estimate of the successor)
         spec = gen.gen_spec(rng, smax=9 if tier == "quick" else 20, A=A, kind=rng.choice(["random", "unichain"]), denom=4, R=rng.choice([1, 5, 10]),
-                            adim=2, initpol=(i % 3 == 0))
+                            adim=2, initpol=(i % 3 == 0), init=(True if i % 3 == 1 else None))
+        if i % 3 == 1 and spec.get("init"):
+            spec["init"] = [4.0 * v for v in spec["init"]]      # large against the rewards, so that it would change the one-step greedy choice
         S = spec_size(spec)
         ops = jobs[i % W][0]
         pid = f"p{i}"
